@@ -51,7 +51,7 @@ func runC01(c *an.Ctx) {
 	r054as(c, "R01.9")
 	c.Min("R01.8", 2)
 	c.Min("R01.1", 10)
-	c.Min("R01.2", 6)
+	c.Min("R01.2", 8)
 	c.Min("R01.3", 8)
 	c.Min("R01.4", 1)
 	c.Min("R01.5", 3)
@@ -294,97 +294,196 @@ func r011(c *an.Ctx) {
 }
 
 // r012: stage order in the change function.
-func r012(c *an.Ctx) {
-	const rule = "R01.2"
+// changeFnFacts evaluates the decision table of WriteRequest.changeFn's closure (E4, helpers the rules have
+// never seen are looked through) against the specification of the five stages. Shared by R01.2 and R02.5.
+type cfFacts struct {
+	cl      *ssa.Function
+	undec   string
+	bad     map[string]string // clause -> first counter example
+	nLeaves int
+}
+
+func changeFnFacts(c *an.Ctx, rule string) *cfFacts {
 	fn := mustFunc(c, rule, resPkg, "WriteRequest", "changeFn")
-	if fn == nil || len(fn.AnonFuncs) != 1 {
-		if fn != nil {
-			c.Unk(rule, "changeFn|closure", fn.Pos(), "expected one function literal")
-		}
-		return
+	if fn == nil {
+		return nil
+	}
+	if len(fn.AnonFuncs) != 1 {
+		c.Unk(rule, "WriteRequest.changeFn|closure", fn.Pos(), fmt.Sprintf("expected changeFn to return one function literal, found %d", len(fn.AnonFuncs)))
+		return nil
 	}
 	cl := fn.AnonFuncs[0]
 	c.SawFunc(an.FuncName(cl))
-	name := "(pkg/resource.WriteRequest).changeFn$1"
-	old, dst := cl.Params[0], cl.Params[1]
-	// the value being written: free variable of proto.Message type
-	stage := map[string][]ssa.Instruction{}
-	an.Instrs(cl, func(in ssa.Instruction) {
-		call, ok := in.(*ssa.Call)
-		if !ok {
+	if len(cl.Params) != 2 {
+		c.Unk(rule, "WriteRequest.changeFn|closure", cl.Pos(), "closure does not have (old, dst) parameters")
+		return nil
+	}
+	names := map[ssa.Value]string{cl.Params[0]: "old", cl.Params[1]: "dst"}
+	for _, fv := range cl.FreeVars {
+		et := deref(fv.Type())
+		switch {
+		case strings.HasSuffix(an.NamedTypeName(et), "/pkg/resource.WriteRequest"):
+			names[fv] = "wr"
+		case strings.HasSuffix(an.NamedTypeName(et), "/pkg/masks.FieldUpdater") || strings.HasSuffix(an.NamedTypeName(deref(et)), "/pkg/masks.FieldUpdater"):
+			names[fv] = "writer"
+		default:
+			names[fv] = "value"
+		}
+	}
+	leaves := an.DecisionTree(cl, an.DTConfig{Names: names})
+	f := &cfFacts{cl: cl, bad: map[string]string{}, nLeaves: len(leaves)}
+	fail := func(clause string, l *an.Leaf, why string) {
+		if _, dup := f.bad[clause]; !dup {
+			f.bad[clause] = fmt.Sprintf("%s (path: %s)", why, strings.Join(l.Assign, ", "))
+		}
+	}
+	const fresh = "call call call value.ProtoReflect().New().Interface()"
+	for _, l := range leaves {
+		if l.Undec != "" || l.Panics {
+			f.undec = l.Undec
+			if l.Panics {
+				f.undec = "a path panics"
+			}
+			continue
+		}
+		idx := func(pred func(string) bool) (first, count int) {
+			first = -1
+			for i, cs := range l.Calls {
+				if pred(cs) {
+					if first < 0 {
+						first = i
+					}
+					count++
+				}
+			}
 			return
 		}
-		n := an.CalleeName(call)
-		switch {
-		case n == "google.golang.org/protobuf/proto.Equal":
-			stage["1 expectedValue"] = append(stage["1 expectedValue"], in)
-		case n == "(*"+an.ModulePath+"/pkg/masks.FieldUpdater).Merge":
-			stage["4 merge"] = append(stage["4 merge"], in)
-		case n == "dynamic":
-			if _, _, f, ok := an.FieldOf(call.Call.Value); ok {
-				switch f {
-				case "expectedCheck":
-					stage["2 expectedCheck"] = append(stage["2 expectedCheck"], in)
-				case "interceptBefore":
-					stage["3 interceptBefore"] = append(stage["3 interceptBefore"], in)
-				case "interceptAfter":
-					stage["5 interceptAfter"] = append(stage["5 interceptAfter"], in)
+		eq, nEq := idx(func(s string) bool {
+			return strings.HasSuffix(s, "proto.Equal(old, wr.expectedValue)") || strings.HasSuffix(s, "proto.Equal(wr.expectedValue, old)")
+		})
+		anyEq, _ := idx(func(s string) bool { return strings.Contains(s, "proto.Equal(") })
+		ec, nEc := idx(func(s string) bool { return s == "wr.expectedCheck(old)" })
+		anyEc, _ := idx(func(s string) bool { return strings.HasPrefix(s, "wr.expectedCheck(") })
+		ib, nIb := idx(func(s string) bool { return strings.HasPrefix(s, "wr.interceptBefore(") })
+		mg, nMg := idx(func(s string) bool { return strings.Contains(s, "FieldUpdater).Merge(") })
+		ia, nIa := idx(func(s string) bool { return strings.HasPrefix(s, "wr.interceptAfter(") })
+		target := "dst"
+		if l.Get("dst==nil") == "true" {
+			target = fresh
+		}
+		evSet := l.Get("wr.expectedValue==nil") == "false"
+		ecSet := l.Get("wr.expectedCheck==nil") == "false"
+		failed := false
+		// stage 1
+		if evSet {
+			switch {
+			case eq < 0:
+				fail("expected value", l, "an expected value is configured but `old` is not compared with it")
+				if anyEq >= 0 {
+					fail("expected value", l, "the expected value is compared with something other than `old`: "+l.Calls[anyEq])
+				}
+			case nEq != 1 || (ec >= 0 && ec < eq) || (ib >= 0 && ib < eq) || (mg >= 0 && mg < eq):
+				fail("expected value", l, "the comparison with the expected value is not the first stage")
+			}
+			var eqVal string
+			for a, v := range l.AssignM {
+				if strings.HasPrefix(a, "call ") && strings.Contains(a, "proto.Equal(") && !strings.Contains(a, "==nil") {
+					eqVal = v
 				}
 			}
+			if eq >= 0 && eqVal == "false" {
+				failed = true
+				if len(l.Returns) != 2 || l.Returns[0].K != "nil" || !strings.Contains(l.Returns[1].S, "ExpectedValuePreconditionFailed") {
+					fail("expected value", l, "a mismatch of the expected value does not return (nil, ExpectedValuePreconditionFailed)")
+				}
+				if ec >= 0 || ib >= 0 || mg >= 0 || ia >= 0 {
+					fail("precondition stops", l, "stages run after the expected value did not match")
+				}
+			}
+		} else if eq >= 0 {
+			fail("expected value", l, "old is compared with an expected value that was not configured (nil)")
 		}
-	})
-	order := []string{"1 expectedValue", "2 expectedCheck", "3 interceptBefore", "4 merge", "5 interceptAfter"}
-	for _, st := range order {
-		c.Check(len(stage[st]) == 1, rule, name+"|stage "+st+" present once", cl.Pos(), "one call site", fmt.Sprintf("%d call sites of this stage (expected exactly one)", len(stage[st])))
-	}
-	for i := 0; i < len(order); i++ {
-		for j := i + 1; j < len(order); j++ {
-			for _, later := range stage[order[j]] {
-				for _, earlier := range stage[order[i]] {
-					if an.Reaches(later, earlier) {
-						c.Bad(rule, name+"|order "+order[i]+" before "+order[j], later.Pos(), "stage '"+order[j]+"' can run before stage '"+order[i]+"': the documented option order is broken")
+		// stage 2
+		if !failed {
+			if ecSet {
+				switch {
+				case ec < 0:
+					fail("expected check", l, "an expected check is configured but it is not called with `old`")
+					if anyEc >= 0 {
+						fail("expected check", l, "the expected check is called with something other than `old`: "+l.Calls[anyEc])
+					}
+				case nEc != 1 || (eq >= 0 && ec < eq) || (ib >= 0 && ib < ec) || (mg >= 0 && mg < ec):
+					fail("expected check", l, "the expected check does not run after the value comparison and before the other stages")
+				}
+				if ec >= 0 && l.Get("call wr.expectedCheck(old)==nil") == "false" {
+					failed = true
+					if len(l.Returns) != 2 || l.Returns[0].K != "nil" || l.Returns[1].S != "call wr.expectedCheck(old)" {
+						fail("expected check", l, "an error of the expected check is not returned as (nil, that error)")
+					}
+					if ib >= 0 || mg >= 0 || ia >= 0 {
+						fail("precondition stops", l, "stages run after the expected check reported an error")
 					}
 				}
+			} else if anyEc >= 0 {
+				fail("expected check", l, "a nil expected check is called")
 			}
 		}
-	}
-	c.Ok(rule, name+"|never-after order of the five stages", cl.Pos(), "checked all pairs")
-	for _, m := range stage["4 merge"] {
-		for _, pre := range []string{"expectedCheck", "expectedValue", "interceptBefore"} {
-			by := bypassPath(cl, m, pre)
-			c.Check(by == nil, rule, name+"|Merge cannot bypass "+pre, m.Pos(), "", "a path reaches Merge without running a configured "+pre, an.BlockPath(c.Prog, by)...)
+		if failed {
+			continue
 		}
-	}
-	// arguments
-	for _, in := range stage["3 interceptBefore"] {
-		a := in.(*ssa.Call).Call.Args
-		c.Check(len(a) == 2 && a[0] == old && isFreeVarMsg(a[1]), rule, name+"|interceptBefore(old, value)", in.Pos(), "", "interceptBefore is not called with (old, the written value)")
-	}
-	isDst := func(v ssa.Value) bool {
-		// dst parameter or a fresh message of value's type
-		for _, s := range an.ValuesAt(v) {
-			if s == dst {
-				continue
+		// stages 3-5 on the successful paths
+		if (l.Get("wr.interceptBefore==nil") == "false") != (ib >= 0) {
+			fail("interceptBefore", l, "interceptBefore does not run exactly when it is configured")
+		}
+		if ib >= 0 && (nIb != 1 || l.Calls[ib] != "wr.interceptBefore(old, value)" || mg < ib) {
+			fail("interceptBefore", l, "interceptBefore is not called once as (old, value) before Merge: "+l.Calls[ib])
+		}
+		if nMg != 1 {
+			fail("merge", l, fmt.Sprintf("a successful path runs Merge %d times", nMg))
+		} else if !strings.HasSuffix(l.Calls[mg], "Merge(writer, "+target+", value)") {
+			fail("merge", l, "Merge does not write the written value into dst (or a fresh message when dst is nil): "+l.Calls[mg])
+		}
+		if (l.Get("wr.interceptAfter==nil") == "false") != (ia >= 0) {
+			fail("interceptAfter", l, "interceptAfter does not run exactly when it is configured")
+		}
+		if ia >= 0 && (nIa != 1 || l.Calls[ia] != "wr.interceptAfter(old, "+target+")" || ia < mg) {
+			fail("interceptAfter", l, "interceptAfter is not called once as (old, merged value) after Merge: "+l.Calls[ia])
+		}
+		if len(l.Returns) != 2 || l.Returns[0].S != target || l.Returns[1].K != "nil" {
+			rs := []string{}
+			for _, r := range l.Returns {
+				rs = append(rs, r.S)
 			}
-			if call, ok := s.(*ssa.Call); ok && call.Call.IsInvoke() && call.Call.Method.Name() == "Interface" {
-				continue
-			}
-			return false
+			fail("returns", l, "a successful change does not return (merged value, nil): "+strings.Join(rs, ", "))
 		}
-		return true
 	}
-	for _, in := range stage["4 merge"] {
-		a := in.(*ssa.Call).Call.Args // recv, dst, src
-		c.Check(len(a) == 3 && isDst(a[1]) && isFreeVarMsg(a[2]), rule, name+"|Merge(dst, value)", in.Pos(), "", "Merge does not write the written value into dst (or a fresh message)")
+	return f
+}
+
+func r012(c *an.Ctx) {
+	const rule = "R01.2"
+	f := changeFnFacts(c, rule)
+	if f == nil {
+		return
 	}
-	for _, in := range stage["5 interceptAfter"] {
-		a := in.(*ssa.Call).Call.Args
-		c.Check(len(a) == 2 && a[0] == old && isDst(a[1]), rule, name+"|interceptAfter(old, dst)", in.Pos(), "", "interceptAfter is not called with (old, dst)")
+	name := "(pkg/resource.WriteRequest).changeFn$1"
+	c.Count("table_rows", f.nLeaves)
+	if f.undec != "" {
+		c.Unk(rule, name+"|decision table", f.cl.Pos(), f.undec)
+		return
 	}
-	for _, r := range an.Returns(cl) {
-		if provablyNilAt(r.Results[1], r) {
-			c.Check(isDst(r.Results[0]), rule, name+"|returns dst", r.Pos(), "", "a successful change returns something other than the merged destination: the stored value is not the merge result")
-		}
+	c.Check(f.nLeaves >= 20, rule, name+"|decision table is complete", f.cl.Pos(), fmt.Sprintf("%d paths", f.nLeaves), "the change function has fewer paths than its five optional stages imply")
+	for _, t := range []struct{ clause, key, expl string }{
+		{"expected value", "stage 1: a configured expected value is compared with old first, a mismatch fails the write", "WithExpectedValue"},
+		{"expected check", "stage 2: a configured expected check sees old next, its error fails the write", "WithExpectedCheck"},
+		{"precondition stops", "a failed precondition runs no further stage", "preconditions"},
+		{"interceptBefore", "stage 3: interceptBefore(old, value) runs iff configured, before Merge", "InterceptBefore"},
+		{"merge", "stage 4: Merge(writer, dst or fresh, value) exactly once on every successful path", "Merge"},
+		{"interceptAfter", "stage 5: interceptAfter(old, merged) runs iff configured, after Merge", "InterceptAfter"},
+		{"returns", "success returns the merged destination", "result"},
+	} {
+		why, isBad := f.bad[t.clause]
+		c.Check(!isBad, rule, name+"|"+t.key, f.cl.Pos(), "", "the documented order and conditions of the write stages are broken ("+t.expl+"): "+why)
 	}
 }
 
